@@ -197,7 +197,7 @@ pub fn run(ctx: &mut Ctx) {
     crate::props::run_regressions(ctx, "C04");
 
     ctx.layer("exhaustive");
-    let dsets: Vec<DS> = { let mut v = dsets_up_to(2, t.pick(6, 8)); v.extend(dsets_up_to(3, t.pick(4, 6))); v };
+    let dsets: Vec<DS> = { let mut v = dsets_up_to(2, t.pick(6, 8)); v.extend(dsets_up_to(3, t.pick(4, 6))); v.extend(dsets_up_to(4, t.pick(4, 5))); v.extend(dsets_up_to(5, t.pick(3, 4))); v };
     let mut syms: Vec<DS> = vec![];
     let mut complete = true;
     for ds in &dsets {
@@ -248,7 +248,7 @@ pub fn run(ctx: &mut Ctx) {
         let pool = pool.clone();
         ctx.run_prop(&SUB_MIN, move || (pooled_symbol(pool.clone()), 0usize..=3, any::<u32>()).prop_map(|(ds, k, pick)| MinCase { sheets: if ds.size <= 6 && k >= 2 { k } else { 0 }, ds, pick }), n);
     }
-    ctx.run_prop(&SUB_MIN, || prop_oneof![random_symbol(2, 6..=40), random_symbol(3, 5..=40)].prop_map(|ds| MinCase { ds, sheets: 0, pick: 0 }), n / 4);
+    ctx.run_prop(&SUB_MIN, || prop_oneof![random_symbol(2, 6..=40), random_symbol(3, 5..=40), random_symbol(4, 4..=40), random_symbol(5, 4..=30)].prop_map(|ds| MinCase { ds, sheets: 0, pick: 0 }), n / 4);
     // large symbols: random ones (mostly minimal) and space-group quotients of the cubic / prism tilings
     // (covers with up to thousands of chambers of a symbol with 1..3 chambers), renumbered
     ctx.layer("large");
